@@ -526,10 +526,14 @@ var variants = []variant{
 	{"upper", strings.ToUpper},
 	{"slashes", perLine("// ")},
 	{"one-line", func(s string) string { return strings.Join(strings.Fields(s), " ") }},
+	// comment markers that are WORDS (batch files, m4): they survive normalisation, the text is a
+	// few percent longer than the license and never takes the exact-match shortcut
+	{"rem", perLine("REM ")},
 	{"lower", strings.ToLower},
 	{"reflow", func(s string) string { return strings.Join(strings.Fields(s), "  \n ") }},
 	{"hash", perLine("# ")},
 	{"star", perLine(" * ")},
+	{"dnl", perLine("dnl ")},
 }
 
 func c16Corpus(c *vrep.Ctx) {
@@ -537,9 +541,9 @@ func c16Corpus(c *vrep.Ctx) {
 		panic("c16 needs the v1 instrumentation profile")
 	}
 	files := licenseFiles()
-	nv := c.Pick(4, len(variants))
+	nv := c.Pick(5, len(variants))
 	l := fullLicense()
-	c.R.Rule = fmt.Sprintf("every one of the %d shipped license files x %d presentation variants (identity, upper, // decoration, whole text re-flowed onto one line; thorough adds lower, one word per line, # and * decoration) against the License classifier built from the full archive: NearestMatch must return the file's canonical name (file name minus .txt and .header) with confidence >= %v; finite and complete", len(files), nv, lc.DefaultConfidenceThreshold)
+	c.R.Rule = fmt.Sprintf("every one of the %d shipped license files x %d presentation variants (identity, upper, // decoration, whole text re-flowed onto one line, REM decoration; thorough adds lower, one word per line, # and * decoration, dnl decoration) against the License classifier built from the full archive: NearestMatch must return the file's canonical name (file name minus .txt and .header) with confidence >= %v; finite and complete", len(files), nv, lc.DefaultConfidenceThreshold)
 	c.Bound("files", len(files))
 	c.Bound("variants", nv)
 	// v1 compares character by character against every known text of similar length; with the
